@@ -116,7 +116,7 @@ def _outcome_str(o):
     return k
 
 
-def run_units(units, nproc=None, timeout=20, retry=120, want_both=False):
+def run_units(units, nproc=None, timeout=10, retry=60, want_both=False):
     """-> (unit reports, obligation table {oid: {...}})"""
     nproc = nproc or int(os.environ.get("PYVC_NPROC", "16"))
     if len(units) == 1 or nproc == 1:
